@@ -130,7 +130,8 @@ def run_shard(rec, tier, seed, shard, nshards):
             batch_arg = batch if (batch or rng.random() < 0.5) else None
             cand = sorted(set(unobserved) - set(batch))
             # prescribed scores: finite, -inf, heavy ties
-            style = str(rng.choice(["distinct", "ties", "neginf", "allequal", "nearly-equal"]))
+            style = str(rng.choice(["distinct", "ties", "neginf", "allequal", "nearly-equal", "posinf"]))
+            rec.count("score_style_" + style)
             near_base = float(rng.choice([1.0, -1.0, 123456.0, 1e-12, -3e-9, 0.0]))
             near_step = abs(near_base) * float(rng.choice([1e-7, 3e-6, 1e-10])) if near_base else 1e-11
             table = {}
@@ -144,6 +145,8 @@ def run_shard(rec, tier, seed, shard, nshards):
                     table[pid] = near_base + near_step * float(rng.integers(-3, 4))
                 elif style == "neginf":
                     table[pid] = float(rng.choice([float("-inf"), 0.0, 1.0, float(rng.normal())]))
+                elif style == "posinf":
+                    table[pid] = float("inf") if rng.random() < 0.8 else float(rng.normal())
                 else:
                     table[pid] = 0.5
             scorer = RecScorer(table)
@@ -353,7 +356,12 @@ def run_shard(rec, tier, seed, shard, nshards):
             w = {"plates": {str(k): [len(v), k in observed] for k, v in plate_rows.items()}, "n_chunks": n_chunks, "batch": batch, "via": "cli"}
             try:
                 for c in range(n_chunks):
-                    o = os.path.join(tmp, "o%d.h5" % c)
+                    # every other run keeps one directory per chunk with the same file name in each
+                    if ci % 2:
+                        os.makedirs(os.path.join(tmp, "chunk_%d" % c), exist_ok=True)
+                        o = os.path.join(tmp, "chunk_%d" % c, "scores.h5")
+                    else:
+                        o = os.path.join(tmp, "o%d.h5" % c)
                     argv = ["--data", f_s, "--thetas", f_t, "--distance-matrix", f_d, "--n-chunks", n_chunks, "--chunk-index", c, "--scorer", "SizeScorer", "--output", o, "--seed", 3]
                     if batch:
                         argv += ["--batch-plate-ids"] + batch
